@@ -380,6 +380,44 @@ struct IntrListML : IMap {
     bool contains( long k ) override { return l->contains( k ); }
 };
 
+// Tie A (atomic-trace conformance with the Lean machine lean/CdsVerif/Algo/Michael/Model.lean): intrusive
+// MichaelList whose head word is named `head` and whose items' m_pNext words are named n1, n2, … in the order in
+// which the inserts are INVOKED (the order in which the Lean machine allocates node ids).  Every `insert k v`
+// brings a fresh item, linked or not.  Only insert / erase / find / contains (no update, no extract): keys and
+// payloads of items are immutable.  The item constructor is kept quiet (it is not part of insert()).
+template <class GC, class L, class Item>
+struct IntrListNamed : IMap {
+    std::unique_ptr<L> l;
+    std::vector<std::unique_ptr<Item>> items;
+    size_t named = 0;
+    IntrListNamed() : l( new L )
+    {
+        can_update = false; can_extract = false;
+        reg_name( &l->m_pHead, sizeof( l->m_pHead ), "head" );
+    }
+    ~IntrListNamed()
+    {
+        l.reset();
+        GC::force_dispose();
+    }
+    bool insert( long k, long v ) override
+    {
+        set_quiet( true );
+        Item* p = new Item;
+        set_quiet( false );
+        p->key = k; p->val = v;
+        items.emplace_back( p );
+        char nm[32];
+        std::snprintf( nm, sizeof nm, "n%zu", ++named );
+        reg_name( &p->m_pNext, sizeof( p->m_pNext ), nm );
+        return l->insert( *p );
+    }
+    std::pair<bool, bool> update( long, long, bool ) override { return std::make_pair( false, false ); }
+    bool erase( long k, long& v ) override { return l->erase( k, [&v]( Item const& item ) { v = item.val; } ); }
+    bool find( long k, long& v ) override { return l->find( k, [&v]( Item& item, long ) { v = item.val; } ); }
+    bool contains( long k ) override { return l->contains( k ); }
+};
+
 // Iterable: update replaces the data pointer
 template <class GC, class L, class Item>
 struct IntrListIter : IMap {
@@ -509,6 +547,8 @@ struct Fixture {
         else if ( v == "michael_kv_gpi" ) { m.reset( new KVListML<CMichaelKV<rcu_gpi, 0, false>> ); after = [] { rcu_gpi::force_dispose(); }; }
         else if ( v == "lazy_kv_gpb" ) { m.reset( new KVListML<CLazyKV<rcu_gpb, 0, false>> ); after = [] { rcu_gpb::force_dispose(); }; m->lockfn = [] { rcu_gpb::access_lock(); }; m->unlockfn = [] { rcu_gpb::access_unlock(); }; }
         else if ( v == "imichael_hp" ) m.reset( new IntrListML<HP, ci::MichaelList<HP, mitem<HP>, imtraits<HP>>, mitem<HP>> );
+        // tie A variant, not chosen at random (use --variant): see IntrListNamed
+        else if ( v == "imichael_hp_named" ) m.reset( new IntrListNamed<HP, ci::MichaelList<HP, mitem<HP>, imtraits<HP>>, mitem<HP>> );
         else if ( v == "imichael_dhp" ) m.reset( new IntrListML<DHP, ci::MichaelList<DHP, mitem<DHP>, imtraits<DHP>>, mitem<DHP>> );
         else if ( v == "ilazy_hp" ) m.reset( new IntrListML<HP, ci::LazyList<HP, litem<HP>, iltraits<HP>>, litem<HP>> );
         else if ( v == "iiterable_hp" ) m.reset( new IntrListIter<HP, ci::IterableList<HP, iitem, iitraits>, iitem>( odd ));
